@@ -2,6 +2,7 @@ package mempoolrig
 
 import (
 	"fmt"
+	"os"
 	"math/big"
 
 	"github.com/lianxiangcloud/linkchain/libs/common"
@@ -127,6 +128,9 @@ func (e *Engine) prune() {
 			if ns := e.sortedNonces(a); len(ns) > mc.AccountQueue {
 				// the per-account queue cap may drop the highest nonces
 				fs := e.futureSet(a)
+				if os.Getenv("MPDBG") != "" {
+					fmt.Println("DBG prune", e.steps, ns, len(fs), len(e.offeredBy[a]))
+				}
 				if len(fs) > mc.AccountQueue {
 					for _, m := range fs[mc.AccountQueue:] {
 						e.C.Probe("excused-account-queue")
@@ -156,6 +160,21 @@ func (e *Engine) mustOffer(a common.Address) (run []*MTx, ambiguous bool) {
 		if bal.Cmp(m.Cost) < 0 {
 			e.C.Probe("invalidated-uncovered")
 			e.dropLive(m)
+			// what queues behind it right now is exposed to the node's
+			// promotion loop at the moment the uncovered one is tried
+			off := map[common.Hash]bool{}
+			for _, tx := range e.offeredBy[a] {
+				off[tx.Hash()] = true
+			}
+			for hn, l := range e.live[a] {
+				if hn > n {
+					for _, x := range l {
+						if !off[x.Hash] {
+							x.BehindFailed = true
+						}
+					}
+				}
+			}
 			return run, false
 		}
 		bal.Sub(bal, m.Cost)
@@ -231,7 +250,15 @@ func (e *Engine) oracle(heavy bool) {
 				e.C.Probe("excused-pool-full")
 				break
 			}
-			e.Violate("not-offered", "executable-not-offered", "u%d nonce %d (%s) was accepted %dms ago, is contiguous from the committed nonce %d, covered by the balance, no size or age limit is in reach (offer %d of size %d, live %d of future %d), yet Reap does not offer it", m.User, m.Nonce, short(m.Hash), (e.now() - m.AcceptedAt).Milliseconds(), e.committedNonce(m.From), len(e.offered), mc.Size, e.liveCount(), mc.FutureSize)
+			key := "executable-not-offered"
+			if m.BehindFailed {
+				key += "/behind-failed-promotion"
+			}
+			if !e.Violate("not-offered", key, "u%d nonce %d (%s) was accepted %dms ago, is contiguous from the committed nonce %d, covered by the balance, no size or age limit is in reach (offer %d of size %d, live %d of future %d), yet Reap does not offer it", m.User, m.Nonce, short(m.Hash), (e.now()-m.AcceptedAt).Milliseconds(), e.committedNonce(m.From), len(e.offered), mc.Size, e.liveCount(), mc.FutureSize) {
+				// listed finding: the node has lost it; go on without it
+				e.dropLive(m)
+				break
+			}
 			return
 		}
 	}
